@@ -1,7 +1,188 @@
 import Driver.Common
+import Driver.C07
+import Log4rsModel.Roller.Crash
+/-
+C08 driver.
+case   : mode(1 append|0 truncate)  pre(0|1)  pattern  base  count  file  init(path:bytes,…)
+         ops(a:<bytes>:<0|1> | r | o | u ,…)  faults(n:k,…)  crash(-|n:k)
+observation (one field): per op `res|boundaries|final`, ops joined by `/`; the first element is the
+start-up of the appender (`rs:…`); boundaries = snapshots at the rotation's hook points joined by
+`;` (`-` if none). After a crash op (`crash|…|image`) an `rs:` element for the fresh appender follows.
+-/
 namespace Driver.C08
-open Driver
+open Log4rs.Proto Log4rs.Roller Log4rs Driver Driver.C07
 
-def handle : Handler := fun _ _ => badCase "unimplemented"
+structure Case where
+  cfg : AppCfg
+  init : Disk
+  ops : List Op
+  faults : List (Nat × Nat)
+  crash : Option (Nat × Nat)
+
+def decOp (s : String) : Option Op :=
+  match splitOnChar ':' s with
+  | ["r"] => some .restart
+  | ["o"] => some .obstacle
+  | ["u"] => some .unobstacle
+  | ["a", b, t] => match decBytes b, decBool t with
+    | some b, some t => some (.append b t)
+    | _, _ => none
+  | _ => none
+
+def decCase : List String → Option Case
+  | [mode, pre, pat, b, c, file, init, ops, faults, crash] => do
+    let mode ← decBool mode
+    let pre ← decBool pre
+    let pattern ← decStr pat
+    let base ← decNat b
+    let count ← decNat c
+    let file ← decStr file
+    let init ← decSnap init
+    let ops ← mapM? decOp (decList ',' ops)
+    let faults ← mapM? (decPair decNat decNat) (decList ',' faults)
+    let crash ← decOpt (decPair decNat decNat) crash
+    if !hasHole pattern || count = 0 then none else
+    pure { cfg := { mode := if mode then .append else .truncate, pre, file,
+                    roller := mkRoller id id pattern base count },
+           init, ops, faults, crash }
+  | _ => none
+
+def obstaclePath (r : RollerCfg) : Path :=
+  r.nameOf (r.base + r.count - 1) ++ "/obstacle".toList
+
+def nSteps (r : RollerCfg) : Nat := r.count
+
+/-- the fault oracle of the n-th rotation attempt, started on disk `d` -/
+def faultOf (c : Case) (n : Nat) (d : Disk) : Nat → Bool := fun k =>
+  c.faults.contains (n, k) ||
+    (k = 0 && d.has (obstaclePath c.cfg.roller) &&
+      (c.cfg.roller.count = 1 || (slot c.cfg.roller d (c.cfg.roller.base + c.cfg.roller.count - 2)).isSome))
+
+/-- index of the first failing step, if any -/
+def firstFault (fault : Nat → Bool) (n : Nat) : Option Nat := (List.range n).find? fault
+
+def renderRes : AppRes → String
+  | .ok => "ok"
+  | .err => "err"
+  | .panic => "PANIC"
+
+def encBoundaries (bs : List Disk) : String :=
+  if bs.isEmpty then "-" else ";".intercalate (bs.map encSnap)
+
+structure MState where
+  app : AppState
+  attempts : Nat
+
+def startObs (st : AppState) : String := "rs:ok|-|" ++ encSnap st.disk
+
+/-- the model's run -/
+def runModel (c : Case) : MState → List Op → List String
+  | _, [] => []
+  | m, op :: rest =>
+    let cfg := c.cfg
+    let r := cfg.roller
+    match op with
+    | .restart =>
+      let st := restartOp cfg m.app.disk
+      startObs st :: runModel c { m with app := st } rest
+    | .obstacle =>
+      let top := r.nameOf (r.base + r.count - 1)
+      if m.app.disk.has top || m.app.disk.has (obstaclePath r) then
+        ("o:skip|-|" ++ encSnap m.app.disk) :: runModel c m rest
+      else
+        let d := m.app.disk.set (obstaclePath r) [120]
+        ("o:placed|-|" ++ encSnap d) :: runModel c { m with app := { m.app with disk := d } } rest
+    | .unobstacle =>
+      let d := m.app.disk.erase (obstaclePath r)
+      ("u|-|" ++ encSnap d) :: runModel c { m with app := { m.app with disk := d } } rest
+    | .append rec answer =>
+      if !answer then
+        let (res, st) := appendOp cfg (fun _ => false) false rec m.app
+        (renderRes res ++ "|-|" ++ encSnap st.disk) :: runModel c { m with app := st } rest
+      else
+        let n := m.attempts
+        let start := rotationStart cfg rec m.app
+        let fault := faultOf c n start.disk
+        let ff := firstFault fault (nSteps r)
+        let crashK : Option Nat := match c.crash with
+          | some (cn, k) => if cn = n && (match ff with | some f => k ≤ f | none => k ≤ nSteps r) then some k else none
+          | none => none
+        match crashK with
+        | some k =>
+          let nb := if k < nSteps r then k + 1 else nSteps r
+          let bs := (List.range nb).map (fun j => crashAfter r cfg.file j start.disk)
+          let image := crashAfter r cfg.file k start.disk
+          let st := restartOp cfg image
+          ("crash|" ++ encBoundaries bs ++ "|" ++ encSnap image) :: startObs st ::
+            runModel c { app := st, attempts := n + 1 } rest
+        | none =>
+          let nb := match ff with
+            | some f => f + 1
+            | none => nSteps r
+          let bs := (List.range nb).map (fun j => crashAfter r cfg.file j start.disk)
+          let (res, st) := appendOp cfg fault true rec m.app
+          (renderRes res ++ "|" ++ encBoundaries bs ++ "|" ++ encSnap st.disk) ::
+            runModel c { app := st, attempts := n + 1 } rest
+
+def decOpObs (s : String) : Option OpObs :=
+  match splitOnChar '|' s with
+  | [res, bs, fin] =>
+    let bs? := if bs = "-" then some [] else mapM? decSnap (splitOnChar ';' bs)
+    match bs?, decSnap fin with
+    | some bs, some fin => some { res, boundaries := bs, final := fin }
+    | _, _ => none
+  | _ => none
+
+/-- pair the observed elements with the ops (a crash element is followed by an implicit restart) -/
+def pairOps : List Op → List OpObs → Option (List (Op × OpObs))
+  | [], [] => some []
+  | op :: ops, o :: os =>
+    if o.res = "crash" then
+      match os with
+      | o2 :: os' => (pairOps ops os').map (fun t => (op, o) :: (Op.restart, o2) :: t)
+      | [] => none
+    else (pairOps ops os).map (fun t => (op, o) :: t)
+  | _, _ => none
+
+def tagsOf (c : Case) (model : List String) : List String :=
+  let nAttempts := (c.ops.filter (fun o => match o with | .append _ true => true | _ => false)).length
+  [if c.cfg.mode = .append then "append-mode" else "truncate-mode",
+   if c.cfg.pre then "pre" else "post",
+   "c" ++ toString c.cfg.roller.count] ++
+  (if c.faults.isEmpty then [] else ["fault"]) ++
+  (if c.faults.any (fun f => f.2 + 1 < c.cfg.roller.count) then ["fault-in-shift"] else []) ++
+  (if c.faults.any (fun f => f.2 + 1 = c.cfg.roller.count) then ["fault-in-final"] else []) ++
+  (if model.any (fun s => s.startsWith "crash|") then ["crash"] else []) ++
+  (if c.ops.contains .obstacle then ["obstacle"] else []) ++
+  (if c.ops.contains .restart then ["restart"] else []) ++
+  (if model.any (fun s => s.startsWith "err|") then ["err"] else []) ++
+  (if c.cfg.roller.comp ≠ .none then ["gz"] else []) ++
+  (if c.cfg.mode = .truncate && model.any (fun s => s.startsWith "err|") then ["truncate-after-failed-roll"] else []) ++
+  (if nAttempts = 0 then ["trivial"] else [])
+
+def handle : Handler := fun cas obs =>
+  match decCase cas, obs with
+  | some c, [implObs] =>
+    let st0 := restartOp c.cfg c.init
+    let modelL := startObs st0 :: runModel c { app := st0, attempts := 0 } c.ops
+    let model := encList "/" modelL
+    let tags := tagsOf c modelL
+    match mapM? decOpObs (decList '/' implObs) with
+    | none => { model, spec := "FAIL:unreadable observation;sig=C08/observation", tags }
+    | some os =>
+      match pairOps (Op.restart :: c.ops) os with
+      | none => { model, spec := "FAIL:observation length;sig=C08/observation", tags }
+      | some pairs =>
+        let ctx : SpecCtx := {
+          cfg := c.cfg,
+          injected := fun n => c.faults.any (fun f => f.1 = n),
+          obstaclePath := obstaclePath c.cfg.roller }
+        -- the appender is built on the initial tree: the first element is that start-up
+        let spec := match checkHistory ctx { prev := c.init, attempts := 0, afterFailedRoll := false } pairs with
+          | none => "ok"
+          | some (clause, sig) => "FAIL:" ++ clause ++ ";sig=" ++ sig
+        { model, spec, tags }
+  | none, _ => badCase "case"
+  | _, _ => badCase "arity"
 
 end Driver.C08
